@@ -135,115 +135,145 @@ class Outcome:
         return "runaway(%r)" % (self.partial,)
 
 
+class HarnessError(Exception):
+    """A failure inside the scripted agent (a bug in the check, never a finding)."""
+
+
 def _nb_pump(link, handler, requests):
     for d in link.recv_all():
         requests.append(d)
-        for out in handler(d) or []:
+        try:
+            outs = handler(d) or []
+        except BaseException as e:  # noqa: BLE001
+            import traceback
+            raise HarnessError("agent handler failed: %r\n%s" % (e, traceback.format_exc())) from e
+        for out in outs:
             link.send(out)
 
 
-def run_api_nb(G, cfg, call, handler, link=None, max_steps=100, client=None):
-    """Deterministic single-threaded driver.  `call` = ('get', oid) | ('get_many', [oids]) |
-    ('getnext', oid) | ('getbulk', oid, max_rep) | ('refresh',)."""
+def _nb_one(c, link, call, handler, requests, max_steps):
+    op = call[0]
+    n0 = len(requests)
+    if op in ("get", "get_many", "refresh"):
+        try:
+            c.send(op, call[1] if len(call) > 1 else None)
+            _nb_pump(link, handler, requests)
+            return Outcome("ok", c.recv(op), requests=requests[n0:])
+        except HarnessError:
+            raise
+        except BaseException as e:  # noqa: BLE001 - classification is the caller's job
+            _nb_pump(link, lambda d: [], requests)
+            return Outcome("exc", exc=e, requests=requests[n0:])
+    out = []
+    try:
+        if op == "getnext":
+            it = c.make_iter(call[1])
+            for _ in range(max_steps):
+                c.send("getnext", it)
+                _nb_pump(link, handler, requests)
+                try:
+                    out.append(c.recv("getnext", it))
+                except StopAsyncIteration:
+                    return Outcome("ok", out, requests=requests[n0:])
+            return Outcome("runaway", partial=out, requests=requests[n0:])
+        if op == "getbulk":
+            it = c.make_iter(call[1], call[2])
+            for _ in range(max_steps):
+                c.send("getbulk", it)
+                _nb_pump(link, handler, requests)
+                try:
+                    buf = c.recv("getbulk", it)
+                except StopAsyncIteration:
+                    return Outcome("ok", out, requests=requests[n0:])
+                if not buf:
+                    return Outcome("ok", out, requests=requests[n0:])
+                for v in buf:
+                    if v is None:
+                        return Outcome("ok", out, requests=requests[n0:])
+                    out.append(v)
+            return Outcome("runaway", partial=out, requests=requests[n0:])
+        if op in ("getnext1", "getbulk1"):
+            # a single GetNext / GetBulk exchange (one request, one recv) on a fresh iterator
+            it = c.make_iter(call[1]) if op == "getnext1" else c.make_iter(call[1], call[2])
+            c.send(op[:-1], it)
+            _nb_pump(link, handler, requests)
+            return Outcome("ok", c.recv(op[:-1], it), requests=requests[n0:])
+    except HarnessError:
+        raise
+    except BaseException as e:  # noqa: BLE001
+        _nb_pump(link, lambda d: [], requests)
+        return Outcome("exc", exc=e, partial=out, requests=requests[n0:])
+    raise ValueError(call)
+
+
+def run_calls_nb(G, cfg, calls, handler, link=None, max_steps=100, client=None):
+    """Deterministic single-threaded driver: several API calls on one raw session.
+    call = ('get', oid) | ('get_many', [oids]) | ('getnext', oid) | ('getbulk', oid, max_rep) | ('refresh',)
+         | ('getnext1', oid) | ('getbulk1', oid, max_rep)   (single exchange)."""
     own = link is None
     if own:
         link = ag.NbLink()
     requests = []
     try:
         c = client or NbClient(G, cfg, link)
-        op = call[0]
-        if op in ("get", "get_many", "refresh"):
-            try:
-                c.send(op, call[1] if len(call) > 1 else None)
-                _nb_pump(link, handler, requests)
-                return Outcome("ok", c.recv(op), requests=requests)
-            except BaseException as e:  # noqa: BLE001 - classification is the caller's job
-                _nb_pump(link, lambda d: [], requests)
-                return Outcome("exc", exc=e, requests=requests)
-        out = []
-        try:
-            if op == "getnext":
-                it = c.make_iter(call[1])
-                for _ in range(max_steps):
-                    c.send("getnext", it)
-                    _nb_pump(link, handler, requests)
-                    try:
-                        out.append(c.recv("getnext", it))
-                    except StopAsyncIteration:
-                        return Outcome("ok", out, requests=requests)
-                return Outcome("runaway", partial=out, requests=requests)
-            if op == "getbulk":
-                it = c.make_iter(call[1], call[2])
-                for _ in range(max_steps):
-                    c.send("getbulk", it)
-                    _nb_pump(link, handler, requests)
-                    try:
-                        buf = c.recv("getbulk", it)
-                    except StopAsyncIteration:
-                        return Outcome("ok", out, requests=requests)
-                    if not buf:
-                        return Outcome("ok", out, requests=requests)
-                    for v in buf:
-                        if v is None:
-                            return Outcome("ok", out, requests=requests)
-                        out.append(v)
-                return Outcome("runaway", partial=out, requests=requests)
-        except BaseException as e:  # noqa: BLE001
-            return Outcome("exc", exc=e, partial=out, requests=requests)
-        raise ValueError(call)
+        return [_nb_one(c, link, call, handler, requests, max_steps) for call in calls]
     finally:
         if own:
             link.close()
 
 
-def _consume(iterable, max_items):
+def _sync_one(s, call, received, max_items):
+    n0 = len(received)
     out = []
-    for x in iterable:
-        out.append(x)
-        if len(out) > max_items:
-            return out, True
-    return out, False
+    try:
+        op = call[0]
+        if op == "get":
+            return Outcome("ok", s.get(call[1]), requests=received[n0:])
+        if op == "get_many":
+            return Outcome("ok", s.get_many(call[1]), requests=received[n0:])
+        if op == "refresh":
+            return Outcome("ok", s.refresh(), requests=received[n0:])
+        if op in ("getnext", "getnext1"):
+            it = s.getnext(call[1])
+        elif op in ("getbulk", "getbulk1"):
+            it = s.getbulk(call[1], call[2])
+        elif op == "fetch":
+            it = s.fetch(call[1])
+        else:
+            raise ValueError(call)
+        if op.endswith("1"):
+            try:
+                return Outcome("ok", next(it), requests=received[n0:])
+            except StopIteration as e:
+                return Outcome("exc", exc=e, requests=received[n0:])
+        for x in it:
+            out.append(x)
+            if len(out) > max_items:
+                return Outcome("runaway", partial=out, requests=received[n0:])
+        return Outcome("ok", out, requests=received[n0:])
+    except BaseException as e:  # noqa: BLE001
+        return Outcome("exc", exc=e, partial=out, requests=received[n0:])
 
 
-def run_api_sync(G, cfg, call, handler, timeout=1.0, max_items=2000, session_kw=None, use_with=False):
+def run_calls_sync(G, cfg, calls, handler, timeout=1.0, max_items=2000, session_kw=None, use_with=False):
     """The real blocking gufo.snmp.sync_client.SnmpSession; agent in a daemon thread."""
     agent = ag.AgentThread(handler)
     agent.start()
-    out = []
     try:
-        s = sync_session(G, cfg, agent.port, timeout, **(session_kw or {}))
         try:
+            s = sync_session(G, cfg, agent.port, timeout, **(session_kw or {}))
             if use_with:
                 s.__enter__()
-            op = call[0]
-            if op == "get":
-                return Outcome("ok", s.get(call[1]), requests=agent.received)
-            if op == "get_many":
-                return Outcome("ok", s.get_many(call[1]), requests=agent.received)
-            if op == "refresh":
-                return Outcome("ok", s.refresh(), requests=agent.received)
-            if op == "getnext":
-                it = s.getnext(call[1])
-            elif op == "getbulk":
-                it = s.getbulk(call[1], call[2])
-            elif op == "fetch":
-                it = s.fetch(call[1])
-            else:
-                raise ValueError(call)
-            for x in it:
-                out.append(x)
-                if len(out) > max_items:
-                    return Outcome("runaway", partial=out, requests=agent.received)
-            return Outcome("ok", out, requests=agent.received)
         except BaseException as e:  # noqa: BLE001
-            return Outcome("exc", exc=e, partial=out, requests=agent.received)
+            return [Outcome("exc", exc=e, requests=list(agent.received))]
+        return [_sync_one(s, call, agent.received, max_items) for call in calls]
     finally:
         agent.stop()
         if agent.errors:
             raise RuntimeError("agent handler failed: %s" % agent.errors[:3])
 
 
-def run_api_async(G, cfg, call, handler, timeout=1.0, max_items=2000, session_kw=None, use_with=False):
+def run_calls_async(G, cfg, calls, handler, timeout=1.0, max_items=2000, session_kw=None, use_with=False):
     """The real gufo.snmp.SnmpSession (asyncio); agent is a DatagramProtocol on the same loop."""
     import asyncio
 
@@ -262,40 +292,58 @@ def run_api_async(G, cfg, call, handler, timeout=1.0, max_items=2000, session_kw
             except Exception as e:  # noqa: BLE001
                 errors.append(repr(e))
 
+    async def one(s, call):
+        n0 = len(received)
+        out = []
+        try:
+            op = call[0]
+            if op == "get":
+                return Outcome("ok", await s.get(call[1]), requests=received[n0:])
+            if op == "get_many":
+                return Outcome("ok", await s.get_many(call[1]), requests=received[n0:])
+            if op == "refresh":
+                return Outcome("ok", await s.refresh(), requests=received[n0:])
+            if op in ("getnext", "getnext1"):
+                it = s.getnext(call[1])
+            elif op in ("getbulk", "getbulk1"):
+                it = s.getbulk(call[1], call[2])
+            elif op == "fetch":
+                it = s.fetch(call[1])
+            else:
+                raise ValueError(call)
+            if op.endswith("1"):
+                try:
+                    return Outcome("ok", await it.__anext__(), requests=received[n0:])
+                except StopAsyncIteration as e:
+                    return Outcome("exc", exc=e, requests=received[n0:])
+            async for x in it:
+                out.append(x)
+                if len(out) > max_items:
+                    return Outcome("runaway", partial=out, requests=received[n0:])
+            return Outcome("ok", out, requests=received[n0:])
+        except BaseException as e:  # noqa: BLE001
+            if isinstance(e, (KeyboardInterrupt, SystemExit, asyncio.CancelledError)):
+                raise
+            return Outcome("exc", exc=e, partial=out, requests=received[n0:])
+
     async def main():
         loop = asyncio.get_running_loop()
         transport, _ = await loop.create_datagram_endpoint(Proto, local_addr=("127.0.0.1", 0))
         port = transport.get_extra_info("sockname")[1]
-        out = []
         try:
-            s = async_session(G, cfg, port, timeout, **(session_kw or {}))
             try:
+                s = async_session(G, cfg, port, timeout, **(session_kw or {}))
                 if use_with:
                     await s.__aenter__()
-                op = call[0]
-                if op == "get":
-                    return Outcome("ok", await s.get(call[1]), requests=received)
-                if op == "get_many":
-                    return Outcome("ok", await s.get_many(call[1]), requests=received)
-                if op == "refresh":
-                    return Outcome("ok", await s.refresh(), requests=received)
-                if op == "getnext":
-                    it = s.getnext(call[1])
-                elif op == "getbulk":
-                    it = s.getbulk(call[1], call[2])
-                elif op == "fetch":
-                    it = s.fetch(call[1])
-                else:
-                    raise ValueError(call)
-                async for x in it:
-                    out.append(x)
-                    if len(out) > max_items:
-                        return Outcome("runaway", partial=out, requests=received)
-                return Outcome("ok", out, requests=received)
             except BaseException as e:  # noqa: BLE001
                 if isinstance(e, (KeyboardInterrupt, SystemExit, asyncio.CancelledError)):
                     raise
-                return Outcome("exc", exc=e, partial=out, requests=received)
+                return [Outcome("exc", exc=e, requests=list(received))]
+            res = []
+            for call in calls:
+                res.append(await one(s, call))
+            await asyncio.sleep(0.005)  # let the agent see every request that was sent
+            return res
         finally:
             transport.close()
 
@@ -305,15 +353,17 @@ def run_api_async(G, cfg, call, handler, timeout=1.0, max_items=2000, session_kw
     return r
 
 
-def run_api(G, driver, cfg, call, handler, **kw):
+def run_calls(G, driver, cfg, calls, handler, **kw):
     if driver == "nb":
-        if call[0] == "fetch":
-            # fetch() = getbulk when bulk is allowed and version != v1, else getnext (documented)
-            call = ("getnext", call[1]) if cfg.version == "v1" else ("getbulk", call[1], 20)
-        return run_api_nb(G, cfg, call, handler, **{k: v for k, v in kw.items() if k in ("link", "max_steps", "client")})
+        calls = [(("getnext", c[1]) if cfg.version == "v1" else ("getbulk", c[1], 20)) if c[0] == "fetch" else c for c in calls]
+        return run_calls_nb(G, cfg, calls, handler, **{k: v for k, v in kw.items() if k in ("link", "max_steps", "client")})
     kw2 = {k: v for k, v in kw.items() if k in ("timeout", "max_items", "session_kw", "use_with")}
     if driver == "sync":
-        return run_api_sync(G, cfg, call, handler, **kw2)
+        return run_calls_sync(G, cfg, calls, handler, **kw2)
     if driver == "async":
-        return run_api_async(G, cfg, call, handler, **kw2)
+        return run_calls_async(G, cfg, calls, handler, **kw2)
     raise ValueError(driver)
+
+
+def run_api(G, driver, cfg, call, handler, **kw):
+    return run_calls(G, driver, cfg, [call], handler, **kw)[0]
